@@ -947,8 +947,78 @@ def run_cases(ctx, cases, model_ok, tag="gen"):
     return len(dis)
 
 
+# ----------------------------------------------------------------------------- directed class: model of C02 + C02/Copy.lean
+
+WEIGHTS_D = {"copy": 8, "pickle": 8, "construct": 8, "freeze": 3, "add_edge": 20, "remove_edge": 8, "set_net_attr": 3}
+SAME_D = ["nodes", "edges", "tail", "head", "membIn", "membOut", "nattr", "eattr"]
+
+
+def pred_dclone(snap, op, prev, exc):
+    """clause (a) and the counter part of (d) read off the implementation along directed histories (the history
+    continues on the clone): the clone shows the network the source showed, is not frozen, and its counter is
+    above every integer edge ID"""
+    name = op["op"]
+    if name not in ("copy", "pickle", "construct"):
+        return []
+    site = {"copy": "DiHypergraph.copy", "pickle": "pickle(DiHypergraph)", "construct": "DiHypergraph(network)"}[name]
+    fails = []
+    if snap["out"] != "ok":
+        return [("clone-raises" if snap["out"].startswith("err") else "clone-warns", f"{site}: outcome {snap['out']} ({exc!r})")]
+    for f in SAME_D:
+        if snap[f] != prev[f]:
+            fails.append(("clone-differs-" + f, f"{site}: source {json.dumps(prev[f])[:150]} clone {json.dumps(snap[f])[:150]}"))
+    want = dict(prev["net"])
+    want.update(dict((k, v) for k, v in _ctor_attrs(op)) if name == "construct" else {})
+    if dict(snap["net"]) != want:
+        fails.append(("clone-differs-net", f"{site}: network attributes {snap['net']} expected {sorted(want.items())}"))
+    if snap["frozen"]:
+        fails.append(("clone-frozen", f"{site}: the clone is frozen"))
+    if isinstance(snap["uid"], int) and isinstance(prev["uid"], int) and \
+            not any(isinstance(e, int) and e >= prev["uid"] for e in prev["edges"]) and \
+            any(isinstance(e, int) and not isinstance(e, bool) and e >= snap["uid"] for e in snap["edges"]):
+        fails.append(("fresh-ids", f"{site}: next automatic id of the clone {snap['uid']} is not above its integer ids {snap['edges']}"))
+    return fails
+
+
+def _ctor_attrs(op):
+    """the keyword attributes of a `construct` request as the snapshot encodes them"""
+    from ..core import enc_attrs
+    from ..dhg import _attrs
+    return enc_attrs(_attrs(op.get("attr", [])))
+
+
+def run_directed_model(ctx, ok):
+    """step-by-step correspondence of the directed model (driver DHG: `DHG.step`, `DHG.clone`) with xgi.DiHypergraph on
+    histories rich in copy() / pickle round trips / DiHypergraph(DH, **attr): full snapshot incl. counter and frozen flag"""
+    from .. import dhg as MD
+    from ..sm import run_sm
+    from .c02 import FULL, derive
+    total = ctx.extra.get("disagreements_total", 0)
+    site = {"copy": "DiHypergraph.copy", "pickle": "pickle(DiHypergraph)", "construct": "DiHypergraph(network)"}
+
+    class Sited:   # run_sm names the site after the op; C07 names it after the clone route
+        def violation(self, s, *a, **k):
+            return ctx.violation(site.get(s, s), *a, **k)
+
+        def __getattr__(self, k):
+            return getattr(ctx, k)
+
+        def __setattr__(self, k, v):
+            setattr(ctx, k, v)
+    dis, _ = run_sm(Sited(), MD, "DHG", FULL, pred_dclone, ctx.n(120, 3000), weights=WEIGHTS_D, derive=derive, model_ok=ok,
+                    corr_name="correspondence DHG~DiHypergraph (clone routes, full snapshot)")
+    ctx.stats["histories_directed_model"] = ctx.stats.pop("histories", 0)
+    ctx.stats.pop("corpus_histories", None)
+    ctx.extra["disagreements_total"] = total + len(dis)
+    return len(dis)
+
+
 def run(ctx):
-    ok = build_and_audit(ctx, "XgiModel.Props.C07", ["XgiModel.C07.Drive"])
+    # Props/C07D.lean: the three clone routes on the directed model (C02/DHG.lean + C02/Copy.lean), audited with this property
+    # Props/C07S.lean: the three clone routes on the simplicial model (C03/SC.lean + C03/Copy.lean), audited with this property
+    ok = build_and_audit(ctx, "XgiModel.Props.C07", ["XgiModel.C07.Drive", "XgiModel.Props.C07D", "XgiModel.C02.Drive",
+                                                      "XgiModel.Props.C07S"],
+                         audit_extra=("XgiModel.Props.C07D", "XgiModel.Props.C07S"))
     ctx.rule = ("networks of the three classes built by random histories of public calls (any labels, explicit ids incl. 0, empty edges, "
                 "isolated nodes, removals, merges) and decorated with nested mutable attribute values (lists/dicts/sets inside dicts) at node, "
                 "edge and network level; each network cloned by copy(), pickle round trip and Class(network); then 2-8 edits on either side "
@@ -964,6 +1034,7 @@ def run(ctx):
     for _ in range(ctx.n(100, 2000)):
         cases += gen_cases(rng, "SimplicialComplex")
     ndis = run_cases(ctx, cases, model_ok=True)
+    ndis += run_directed_model(ctx, ok)
     if not ctx.quick:
         ex = list(exhaustive_cases())
         ndis += run_cases(ctx, ex, model_ok=True, tag="exhaustive")
